@@ -341,28 +341,67 @@ fn wire_case(c: &Case, alpn: Alpn) -> Result<String, (String, String)> {
     Ok("wire-h1".into())
 }
 
+fn replay(path: &str) -> i32 {
+    let doc: serde_json::Value = serde_json::from_str(&std::fs::read_to_string(path).expect("replay file")).expect("json");
+    let rp = doc.get("replay").cloned().unwrap_or(doc);
+    let cases = grammar();
+    let Some(c) = rp.get("case_index").and_then(|x| x.as_u64()).and_then(|i| cases.get(i as usize)) else {
+        println!("MACHINERY-ERROR replay file has no case_index");
+        return 2;
+    };
+    std::panic::set_hook(Box::new(|_| {}));
+    let r = if rp.get("engine").and_then(|x| x.as_str()) == Some("c13-wire") {
+        let alpn = match rp.get("alpn").and_then(|x| x.as_str()) {
+            Some("TlsNone") => Alpn::TlsNone,
+            Some("H2") => Alpn::H2,
+            Some("Http11") => Alpn::Http11,
+            _ => Alpn::NoTls,
+        };
+        println!("wire: {} {} {:?} ALPN {alpn:?}", c.method, c.uri(), c.req_version);
+        wire_case(c, alpn)
+    } else {
+        let v = if rp.get("conn_version").and_then(|x| x.as_str()) == Some("HTTP/2.0") { http::Version::HTTP_2 } else { http::Version::HTTP_11 };
+        println!("layers: {} {} {:?} on an {v:?} connection", c.method, c.uri(), c.req_version);
+        check_part1(c, v)
+    };
+    let _ = std::panic::take_hook();
+    match r {
+        Ok(class) => {
+            println!("outcome class {class}\nreplay holds");
+            0
+        }
+        Err((sub, msg)) => {
+            println!("  {sub}: {msg}\nVIOLATION property=C13 replay={path}");
+            1
+        }
+    }
+}
+
 pub fn run(args: &Args) -> i32 {
+    if let Some(p) = &args.replay {
+        return replay(p);
+    }
     let mut run = Run::new("C13", args.tier, "model_checking");
     std::panic::set_hook(Box::new(|_| {}));
     let cases = grammar();
     let mut evaluations = 0u64;
     let mut classes: BTreeSet<String> = BTreeSet::new();
     let sig = |c: &Case, conn: &str, sub: &str| format!("{sub} conn={conn} method={} path={:?} query={} port={} preset={}", if c.method == "CONNECT" { "CONNECT" } else { "other" }, if c.path.is_empty() { "empty" } else { "non-empty" }, match c.query { None => "none", Some("") => "empty", _ => "some" }, match c.port { None => "none".to_string(), Some(p) if p == c.default_port() => "default".into(), Some(p) if p == 80 || p == 443 => "other-default".into(), _ => "custom".into() }, c.preset);
-    for c in &cases {
+    for (ci, c) in cases.iter().enumerate() {
         for conn_version in [http::Version::HTTP_11, http::Version::HTTP_2] {
             evaluations += 1;
             match check_part1(c, conn_version) {
                 Ok(cl) => {
                     classes.insert(format!("layers|{conn_version:?}|{cl}"));
                 }
-                Err((sub, msg)) => run.violation(sig(c, &format!("{conn_version:?}"), &sub), format!("{msg}; request {} {} {:?} on an {conn_version:?} connection", c.method, c.uri(), c.req_version), json!({"engine":"c13-layers","case":format!("{c:?}"),"conn_version":format!("{conn_version:?}")})),
+                Err((sub, msg)) => run.violation(sig(c, &format!("{conn_version:?}"), &sub), format!("{msg}; request {} {} {:?} on an {conn_version:?} connection", c.method, c.uri(), c.req_version), json!({"engine":"c13-layers","case_index":ci,"case":format!("{c:?}"),"conn_version":format!("{conn_version:?}")})),
             }
         }
     }
     run.cov("part1_layer_cases", evaluations);
     // Part 2: a slice of the grammar that still covers every class, crossed with ALPN answers, onto the wire
     let thorough = args.tier.is_thorough();
-    let wire: Vec<&Case> = cases.iter().filter(|c| {
+    let wire: Vec<(usize, &Case)> = cases.iter().enumerate().filter(|(_, c)| {
         let host_ok = thorough || c.host == "example.com" || c.host == "[::1]";
         let path_ok = thorough || matches!(c.path, "" | "/a%20b");
         let method_ok = matches!(c.method, "GET" | "CONNECT" | "PURGE") || thorough;
@@ -370,21 +409,20 @@ pub fn run(args: &Args) -> i32 {
         host_ok && path_ok && method_ok && scheme_ok && c.req_version != http::Version::HTTP_10
     }).collect();
     let alpns = [Alpn::NoTls, Alpn::TlsNone, Alpn::H2, Alpn::Http11];
-    let items: Vec<(&Case, Alpn)> = wire.iter().flat_map(|c| alpns.iter().map(move |a| (*c, *a))).collect();
+    let items: Vec<(usize, &Case, Alpn)> = wire.iter().flat_map(|(i, c)| alpns.iter().map(move |a| (*i, *c, *a))).collect();
     let results = crate::evidence::par_map(items.len(), crate::evidence::n_threads(), |i| {
-        let (c, a) = items[i];
-        // CONNECT on an HTTP/2 connection is rejected before anything but the preface reaches the wire
+        let (_, c, a) = items[i];
         wire_case(c, a)
     });
     let mut wire_n = 0u64;
     for (i, r) in results.into_iter().enumerate() {
         wire_n += 1;
-        let (c, a) = items[i];
+        let (ci, c, a) = items[i];
         match r {
             Ok(cl) => {
                 classes.insert(format!("wire|{a:?}|{:?}|{cl}", c.req_version));
             }
-            Err((sub, msg)) => run.violation(sig(c, &format!("{a:?}"), &sub), format!("{msg}; request {} {} {:?}, ALPN {a:?}", c.method, c.uri(), c.req_version), json!({"engine":"c13-wire","case":format!("{c:?}"),"alpn":format!("{a:?}")})),
+            Err((sub, msg)) => run.violation(sig(c, &format!("{a:?}"), &sub), format!("{msg}; request {} {} {:?}, ALPN {a:?}", c.method, c.uri(), c.req_version), json!({"engine":"c13-wire","case_index":ci,"case":format!("{c:?}"),"alpn":format!("{a:?}")})),
         }
     }
     let _ = std::panic::take_hook();
